@@ -38,6 +38,9 @@ type c12Input struct {
 	Jumps int     `json:"jumps,omitempty"` // 2: a second jump to the same mark follows, with a condition that never holds
 	// how the body moves along adj: "" = out(); "in" = in() over a store that holds every edge reversed; "eout" = outE().out()
 	Move string `json:"move,omitempty"`
+	// > 0: the loop is followed by limit(Limit), reached before the loop is exhausted: the rows are some Limit of the loop's
+	// rows and the stream closes
+	Limit int `json:"limit,omitempty"`
 }
 type c12Obs struct {
 	Closed   bool   `json:"closed"`
@@ -124,6 +127,9 @@ func loopProg(in c12Input) []tStmt {
 	if in.Jumps == 2 {
 		// the mark now waits for its signal to come back from both jumps; rows are those the first jump emits
 		p = append(p, tStmt{Op: "jump", Str: "s", Has: &hExpr{Kind: "cond", Key: "$m.c", Op: "lt", Arg: -1.0}, N: 1})
+	}
+	if in.Limit > 0 {
+		p = append(p, tStmt{Op: "limit", N: int64(in.Limit)})
 	}
 	return p
 }
@@ -281,6 +287,12 @@ func c12Inputs(ctx *Ctx) []c12Input {
 									out = append(out, in)
 									in.Jumps = 0
 								}
+								// a limit behind the loop, reached while travelers are still in the cycle
+								if emit && hops == 1 && procs == 16 && bound >= 2 && len(f.adj) >= 5 && len(st) == 0 {
+									in4 := in
+									in4.Limit = 3
+									out = append(out, in4)
+								}
 								// the same loop with a body that moves with in() (over the reversed store) / outE().out()
 								if hops == 1 && bound >= 1 && procs == 16 {
 									in2 := in
@@ -352,7 +364,7 @@ func runC12(ctx *Ctx) error {
 	ctx.Shard = 60
 	ctx.Scope = "N_scope"
 	ctx.Exhaustive = true
-	ctx.Rule = "grid: graph families (empty, single vertex, self-loop, chain, cycles of 5/120/1300, complete K4, stars of 60/700 leaves pointing back at the hub; thorough adds K6, cycle 5200, star 2600, chain 40 and 12 random digraphs) x loop V(start).as(m).set($m.c,0).mark(s).out(){1,2} [also in() over the reversed store, and outE().out()].increment($m.c).jump(s, $m.c < bound, emit) [optionally followed by a second jump to s whose condition never holds] with bound in {0,1,2,3,5}, emit on/off, start = all vertices or one vertex, GOMAXPROCS 1 and 16; travelers in flight range from 0 to several times the 50-slot queue channels and the 1000-slot slice; production compiler + pipeline.Run on badger in worker sub-processes, 25 s deadline; observed: stream closed, multiset of vertex ids delivered, goroutines left; non-trivial = at least one traveler jumps back; distinct by input"
+	ctx.Rule = "grid: graph families (empty, single vertex, self-loop, chain, cycles of 5/120/1300, complete K4, stars of 60/700 leaves pointing back at the hub; thorough adds K6, cycle 5200, star 2600, chain 40 and 12 random digraphs) x loop V(start).as(m).set($m.c,0).mark(s).out(){1,2} [also in() over the reversed store, and outE().out()].increment($m.c).jump(s, $m.c < bound, emit) [optionally followed by a second jump to s whose condition never holds] with bound in {0,1,2,3,5}, emit on/off, start = all vertices or one vertex, a limit behind the loop that is reached before the loop is exhausted, GOMAXPROCS 1 and 16; travelers in flight range from 0 to several times the 50-slot queue channels and the 1000-slot slice; production compiler + pipeline.Run on badger in worker sub-processes, 25 s deadline; observed: stream closed, multiset of vertex ids delivered, goroutines left; non-trivial = at least one traveler jumps back; distinct by input"
 	var inputs []c12Input
 	if ctx.Replay != nil {
 		var in c12Input
@@ -441,7 +453,7 @@ func runC12(ctx *Ctx) error {
 			gspec = "(GAdj " + coq.List(adj) + ")"
 		}
 		cc := coq.Record("c_graph", gspec, "c_hops", fmt.Sprintf("%d%%nat", in.Hops), "c_start", coq.List(ss),
-			"c_bound", fmt.Sprintf("%d%%nat", in.Bound), "c_emit", coq.Bool(in.Emit),
+			"c_bound", fmt.Sprintf("%d%%nat", in.Bound), "c_emit", coq.Bool(in.Emit), "c_limit", fmt.Sprintf("%d%%nat", in.Limit),
 			"o_closed", coq.Bool(ob.Closed), "o_rows", coq.List(rows), "o_leak", fmt.Sprint(ob.Leak))
 		key, _ := json.Marshal(in)
 		obsOut := ob
